@@ -1075,22 +1075,6 @@ func (k *checker) good(what string, u Upload, tag string) {
 	k.accept(what, resp, tag, fullFiles(u, tag))
 }
 
-// benchBefore counts complete benchmark lines in data (lines terminated by a
-// newline that start with "Benchmark").
-func benchBefore(data string) int {
-	n := 0
-	for {
-		i := strings.IndexByte(data, '\n')
-		if i < 0 {
-			return n
-		}
-		if strings.HasPrefix(data[:i], "Benchmark") && strings.ContainsAny(data[:i], " \t") {
-			n++
-		}
-		data = data[i+1:]
-	}
-}
-
 // Check runs one scenario.
 func Check(c Case) (v vcase.Verdict) {
 	if !wellFormed(c) {
